@@ -250,7 +250,8 @@ func runB(p BPlan) (v hk.Verdict) {
 
 					// with at least as many workers as keys a worker is always free for this key, so the retry
 					// cannot be later than the envelope either (this is what detects a backoff that never resets)
-					if nkeys := len(bids) * (1 + len(qp.Mapper)/len(bids)); p.Conc >= nkeys && gap > hi+time.Millisecond {
+					// (reconciles and map jobs that take no time never occupy a worker either)
+					if nkeys := len(bids) * (1 + len(qp.Mapper)/len(bids)); (p.Conc >= nkeys || p.BusyMs == 0) && gap > hi+time.Millisecond {
 						v.Failf("key %s: retry after failure #%d came after %s, later than the backoff envelope [%s, %s] although a worker was free (backoff not reset after success?)", k, fails+1, gap, lo, hi)
 					}
 
